@@ -8,7 +8,7 @@ abbrev Bytes := List UInt8
 /-- Python exception classes that the modelled code can raise. -/
 inductive PyExc
   | valueError | eofError | osError | indexError | keyError
-  | attributeError | overflowError | typeError | timeoutDiverge
+  | attributeError | overflowError | typeError | timeoutDiverge | zeroDivisionError
   deriving DecidableEq, Repr
 
 def PyExc.name : PyExc → String
@@ -21,6 +21,7 @@ def PyExc.name : PyExc → String
   | .overflowError => "OverflowError"
   | .typeError => "TypeError"
   | .timeoutDiverge => "Timeout"
+  | .zeroDivisionError => "ZeroDivisionError"
 
 abbrev Py (α : Type) := Except PyExc α
 
